@@ -205,7 +205,12 @@ def circuit_spec(
     if shuffle and draw(st.booleans()):
         # node storage order need not be topological (specs.build adds all nodes, then all edges)
         nodes = list(draw(st.permutations(nodes)))
-    return {"name": name, "nodes": nodes, "bbtypes": bbtypes, "insts": insts}
+    spec = {"name": name, "nodes": nodes, "bbtypes": bbtypes, "insts": insts}
+    if draw(st.integers(0, 7)) == 0:
+        # as the fast Verilog parser (or a user-supplied graph) builds circuits: nodes that are not
+        # outputs carry no 'output' attribute at all
+        spec["raw_attrs"] = True
+    return spec
 
 
 def valuation_bits(n):
